@@ -273,6 +273,9 @@ func (e *Enc) staticCall(f *frame, st *State, in *ssa.Call, callee *ssa.Function
 	all := append(append([]Val{}, args...), bindings...)
 	name := e.w.funcName(callee)
 	fc := e.w.contracts.Funcs[name]
+	if fc != nil && fc.Skip != "" {
+		fc = nil
+	}
 	if fc != nil && !fc.Inline {
 		return e.contractCall(f, st, in, callee, fc, args, resShape)
 	}
@@ -818,7 +821,7 @@ func (e *Enc) implContracts(in *ssa.Call) []struct {
 			if m == nil {
 				continue
 			}
-			if fc := e.w.contracts.Funcs[e.w.funcName(m)]; fc != nil {
+			if fc := e.w.contracts.Funcs[e.w.funcName(m)]; fc != nil && fc.Skip == "" {
 				out = append(out, struct {
 					tag int
 					fn  *ssa.Function
